@@ -191,6 +191,38 @@ func (f *genesisFam) Exec(r *hx.Run, op []string) string {
 	return "bad-op"
 }
 
+// probe: does a first installation of genesis variant v succeed on a fresh chain of router ri? (throw-away world)
+func (f *genesisFam) probe(ri *routerInfo, v int) bool {
+	if ri.build == nil {
+		return false
+	}
+	gb, err := ri.build(v)
+	if err != nil {
+		return false
+	}
+	saved, savedRt := f.w, f.chainRt
+	defer func() { f.w.close(); f.w, f.chainRt = saved, savedRt }()
+	f.w = newWorld()
+	f.chainRt = map[uint64]*routerInfo{}
+	f.w.plantPeers(4, 0)
+	f.w.height = 18823000
+	sc := &side_chain_manager.SideChain{Address: valAddr[nKeys-1], ChainId: 9, Router: ri.router, Name: ri.name, BlocksToWait: 1, CCMCAddress: []byte{1, 2, 3, 4}}
+	if ri.extra != nil {
+		sc.ExtraInfo = ri.extra()
+	}
+	side_chain_manager.PutSideChain(f.w.view(), sc)
+	f.w.cache.Commit()
+	f.w.cache.Reset()
+	ok := false
+	func() {
+		defer func() { recover() }()
+		tx := mkTx(1, utils.HeaderSyncContractAddress, hscommon.SYNC_GENESIS_HEADER, genesisParam(9, gb))
+		_, _, err := f.w.exec(tx, f.w.signerAddrs("op"))
+		ok = err == nil
+	}()
+	return ok
+}
+
 func (f *genesisFam) Gen(r *hx.Run) {
 	r.Rule("per header-sync router: histories of SyncGenesisHeader with two different valid genesis records and a malformed one, signed by the operator / a single validator / nobody, before and after registration of the chain, on two chains of the same router, interleaved with (rejected) header syncs; distinct non-trivial = (router, outcome, already installed?, same or different genesis) combinations")
 	nPer := r.Pick(6, 300)
@@ -201,6 +233,18 @@ func (f *genesisFam) Gen(r *hx.Run) {
 	for _, ri := range routerTable {
 		if ri.static != "" {
 			continue
+		}
+		// which genesis variants does the real installer accept as a first installation? (0, 1: ordinary; 2: height 0;
+		// 3: extreme height with unusual content — long chain id, odd hash length, empty / single-member sets)
+		var variants []int
+		for v := 0; v < 4; v++ {
+			if f.probe(ri, v) {
+				variants = append(variants, v)
+				r.Hist(fmt.Sprintf("variant.%s.%d", ri.name, v))
+			}
+		}
+		if len(variants) == 0 {
+			variants = []int{0, 1}
 		}
 		for k := 0; k < nPer; k++ {
 			id++
@@ -232,7 +276,10 @@ func (f *genesisFam) Gen(r *hx.Run) {
 				nonce++
 				switch x := rng.Intn(10); {
 				case x < 7:
-					g := fmt.Sprint(rng.Intn(2))
+					g := fmt.Sprint(variants[rng.Intn(len(variants))])
+					if k%2 == 1 && !inst[ch] && len(variants) > 2 {
+						g = fmt.Sprint(variants[2+rng.Intn(len(variants)-2)]) // first installation with an unusual genesis
+					}
 					if rng.Chance(1, 8) {
 						g = "bad"
 					}
@@ -245,6 +292,20 @@ func (f *genesisFam) Gen(r *hx.Run) {
 					r.Nontrivial(fmt.Sprintf("%s/%s/%v/%s", ri.name, out, inst[ch], g))
 					if out == "ok" {
 						inst[ch] = true
+						// always followed by a second, different genesis (and the same one again)
+						for _, v2 := range variants {
+							if fmt.Sprint(v2) != g {
+								nonce++
+								r.Do(fmt.Sprintf("install n=%d s=op chain=%d g=%d", nonce, ch, v2))
+								break
+							}
+						}
+						if rng.Bool() {
+							nonce++
+							r.Do(fmt.Sprintf("sync n=%d s=0 chain=%d", nonce, ch))
+							nonce++
+							r.Do(fmt.Sprintf("install n=%d s=op chain=%d g=%s", nonce, ch, g))
+						}
 					}
 				default:
 					r.Do(fmt.Sprintf("sync n=%d s=0 chain=%d", nonce, ch))
